@@ -166,7 +166,9 @@ func firstIndex(limit, workers int, pred func(i int) bool) int {
 // (65536 times rarer) two-zero-byte variants of the cheap quantities are searched as well, and
 // saTwo those for which s_a with two zero bytes is searched (about 50 CPU-seconds each).
 func ztSearch(c *kit.Ctx, groups []string, twoBytes, saTwo map[string]bool, workers int) (cases []wZero, missing []string) {
-	const pwName, s1Name = "ascii", "8:count"
+	// salt1 is what NewHash makes of "8:count" with the random source kit.NewStream(1), so that the v case
+	// found here is also a zero-top case of the new-hash family
+	const pwName, s1Name = "ascii", "8:count+newhash"
 	pw, s1 := password(pwName), salt(s1Name)
 
 	// x_i = PH2(password, salt1, salt2(i)); computed in blocks, shared by all groups
